@@ -28,7 +28,10 @@ func DefaultParams() Params {
 
 // Validate validates a set of params
 func (p Params) Validate() error {
-	return validatePoolCreationFee(p.PoolCreationFee)
+	if err := validatePoolCreationFee(p.PoolCreationFee); err != nil {
+		return err
+	}
+	return validateTaxRate(p.TaxRate)
 }
 
 // String returns a human readable string representation of the parameters.
@@ -55,7 +58,7 @@ func validateTaxRate(i interface{}) error {
 		return fmt.Errorf("invalid parameter type: %T", i)
 	}
 
-	if !v.GT(math.LegacyZeroDec()) || !v.LT(math.LegacyOneDec()) {
+	if v.IsNil() || !v.GT(math.LegacyZeroDec()) || !v.LT(math.LegacyOneDec()) {
 		return fmt.Errorf("tax rate must be positive and less than 1: %s", v.String())
 	}
 	return nil
